@@ -4,7 +4,8 @@ import BbRe.Drivers.Util
 /-!
 Line-protocol driver of `Model/LockRange.lean` (C20, NFS layer).
 
-  conv <offset> <length>      -> inval | <start> <end>
+  conv <offset> <length>      -> st=<nfsstat4> | <start> <end>      (st=22 INVAL, st=10042 BAD_RANGE)
+  legacyconv <offset> <length> -> inval | <start> <end>                (the conversion before 3d4b513)
   denied <start> <end>        -> <offset> <length>
   unlockall                   -> <start> <end>
 -/
@@ -17,6 +18,13 @@ def step (s : Unit) (ws : List String) : Unit × String :=
     match o.toNat?, l.toNat? with
     | some o, some l =>
       (s, match offsetLengthToStartEnd o l with
+          | .error st => s!"st={st}"
+          | .ok (a, b) => s!"{a} {b}")
+    | _, _ => (s, "bad-op")
+  | ["legacyconv", o, l] =>
+    match o.toNat?, l.toNat? with
+    | some o, some l =>
+      (s, match legacyOffsetLengthToStartEnd o l with
           | none => "inval"
           | some (a, b) => s!"{a} {b}")
     | _, _ => (s, "bad-op")
